@@ -1,6 +1,7 @@
 package props
 
 import (
+	"sort"
 	"encoding/base64"
 	"encoding/json"
 	"fmt"
@@ -75,12 +76,19 @@ func c11Accepted(r *mon.Run, family, desc string, d *gabi.ProofD, t c11Truth) {
 	}
 	hiddenMatch := false
 	for i := range t.cred.Ledger {
-		if _, hid := d.AResponses[i]; hid && t.cred.NormLedger(i).Cmp(t.e) == 0 {
+		// "the attribute hidden in that same credential": the revocation attribute, not any hidden attribute of equal value
+		if _, hid := d.AResponses[i]; hid && i == t.cred.RevIdx && t.cred.NormLedger(i).Cmp(t.e) == 0 {
 			hiddenMatch = true
 		}
 	}
 	if !hiddenMatch {
-		fail("C11/accepted-witness-not-in-credential/"+family, "accepted although the proved witness value is not a hidden attribute of the credential the proof was made from")
+		for i := range t.cred.Ledger {
+			if _, hid := d.AResponses[i]; hid && i != t.cred.RevIdx && t.cred.NormLedger(i).Cmp(t.e) == 0 {
+				fail("C11/accepted-witness-on-other-attribute", fmt.Sprintf("accepted although the witness value proved (a true u^e = nu) is hidden attribute %d of the credential and not its revocation attribute %d: the credential's own witness value plays no part in the accepted proof", i, t.cred.RevIdx))
+				return
+			}
+		}
+		fail("C11/accepted-witness-not-in-credential/"+family, "accepted although the proved witness value is not the hidden revocation attribute of the credential the proof was made from")
 		return
 	}
 	for _, v := range d.AResponses {
@@ -125,6 +133,19 @@ func runC11(r *mon.Run) {
 	}
 	// longer structured histories beyond the enumerated depth: a prepared commitment refreshed several times (a proof
 	// consumes it only at the end), refreshes interleaved with re-signed accumulators, proofs in between
+	// sessions spanning other operations: builder created (B), revocations / witness updates / re-signing, proof finished (F)
+	for _, sq := range []string{"BOUF", "BOUFV", "PBOUF", "BTUF", "BOUOUF", "BSF", "OUBOUFV", "BOUVF", "PBOUPF", "BOTUF", "BUF", "BOF", "POUBOUTUF", "BPF", "BOUPV F"} {
+		seqs = append(seqs, strings.ReplaceAll(sq, " ", ""))
+	}
+	for i := 0; i < r.Pick(60, 600); i++ {
+		n := 4 + rng.IntN(7)
+		b := make([]byte, n)
+		for k := range b {
+			b[k] = "POUTVBF"[rng.IntN(7)]
+		}
+		b[0], b[n-1] = 'B', 'F'
+		seqs = append(seqs, string(b))
+	}
 	for _, sq := range []string{"POUPOUV", "POUPOUPOUV", "POUOUPV", "POUTPOUV", "POUPOUVPOUPOUV", "PPOUPOUV", "POOUPOOUPV", "POUPTOUPV", "POUVOUPOUPV", "PTPOUPOUPTV"} {
 		seqs = append(seqs, sq)
 	}
@@ -139,7 +160,7 @@ func runC11(r *mon.Run) {
 	}
 	r.Set("history_sequences", len(seqs))
 	r.Set("history_sequences_exhaustive_part", exhaustiveN)
-	r.Set("exhaustive_scope", fmt.Sprintf("all operation sequences over {P=prepare,O=revoke other,S=revoke self,U=update witness,T=issuer re-signs the current accumulator with a later time,V=prove} of length <= %d that end in a proof", depth))
+	r.Set("exhaustive_scope", fmt.Sprintf("all operation sequences over {P=prepare,O=revoke other,S=revoke self,U=update witness,T=issuer re-signs the current accumulator with a later time,V=prove} of length <= %d that end in a proof; plus structured and random sequences with B=begin session (builder), F=finish it", depth))
 	r.Exhaustive(true)
 	var amb atomic.Int64
 	mon.Parallel(len(seqs), runtime.NumCPU(), func(i int) {
@@ -208,9 +229,52 @@ func c11History(r *mon.Run, key *world.Key, seq string, amb *atomic.Int64) {
 	wi, selfAt := 0, 0
 	wTime := rev.Accs[0].Time
 	r.Distinct("hist", key.Name, seq)
+	// a session in progress: the builder (and with it the non-revocation commitment) exists since 'B', the proof is made at 'F'
+	var pend *gabi.DisclosureProofBuilder
+	var pendU *big.Int
+	var pendWi int
+	// signing times of accumulator pendWi that the witness held from 'B' on: a same-index re-signing adopted by the witness during
+	// the session is the same accumulator value, and a proof showing either signature tells the truth
+	var pendTimes map[int64]bool
 	for step, op := range []byte(seq) {
 		desc := fmt.Sprintf("key=%s seq=%s step=%d", key.Name, seq, step)
 		switch op {
+		case 'B':
+			b, err := cred.C.CreateDisclosureProofBuilder([]int{1}, nil, true)
+			if err != nil {
+				r.Eval("history-prove", "error")
+				r.Violation("C11/proving-fails-with-valid-witness", "CreateDisclosureProofBuilder failed although the witness satisfies u^e = nu: "+err.Error()+" ("+desc+")", map[string]any{"case": desc})
+				return
+			}
+			pend, pendU, pendWi, pendTimes = b, cp(w.U), wi, map[int64]bool{wTime: true}
+		case 'F':
+			if pend == nil {
+				continue
+			}
+			ctx, nonce := bi(int64(2000+step)), bi(int64(9+step))
+			list, err := gabi.ProofBuilderList{pend}.BuildProofList(ctx, nonce, false)
+			pend = nil
+			if err != nil || len(list) != 1 {
+				r.Eval("history-prove", "error")
+				r.Violation("C11/proving-fails-with-valid-witness", fmt.Sprintf("a session begun with a valid witness cannot be finished: %v (%s)", err, desc), map[string]any{"case": desc})
+				return
+			}
+			d := list[0].(*gabi.ProofD)
+			recv := cloneD(d)
+			ok, pv, _ := verifyList(gabi.ProofList{recv}, []*gabikeys.PublicKey{pk}, ctx, nonce, false, nil)
+			r.Eval("history-prove", outcome(ok, pv))
+			r.Add("sessions_finished_after_other_operations", 1)
+			if !ok {
+				c11Rejected(r, "history", desc+" (session begun at witness index "+fmt.Sprint(pendWi)+")", d, cred, amb)
+				return
+			}
+			c11Accepted(r, "history", desc, recv, c11Truth{cred, pendU, w.E})
+			got := recv.NonRevocationProof.SignedAccumulator.Accumulator
+			if got.Index != uint64(pendWi) || !pendTimes[got.Time] || got.Nu.Cmp(rev.Accs[pendWi].Nu) != 0 {
+				r.Violation("C11/proof-made-against-other-accumulator", fmt.Sprintf("verifier reads accumulator index %d time %d from the accepted proof; the commitment was made at index %d (signing times held since: %v) (%s)", got.Index, got.Time, pendWi, sortedTimes(pendTimes), desc),
+					map[string]any{"case": desc, "proof": dumpD(d)})
+				return
+			}
 		case 'P':
 			if err := cred.C.NonrevPrepareCache(); err != nil {
 				r.Violation("C11/prepare-cache-fails", "NonrevPrepareCache failed on a valid witness: "+err.Error()+" ("+desc+")", map[string]any{"case": desc})
@@ -247,6 +311,9 @@ func c11History(r *mon.Run, key *world.Key, seq string, amb *atomic.Int64) {
 					wTime = rev.Accs[cur].Time
 				}
 				wi = cur
+				if pend != nil && wi == pendWi {
+					pendTimes[wTime] = true
+				}
 			}
 		case 'T':
 			if err := rev.Retime(3600); err != nil {
@@ -277,6 +344,15 @@ func c11History(r *mon.Run, key *world.Key, seq string, amb *atomic.Int64) {
 			}
 		}
 	}
+}
+
+func sortedTimes(m map[int64]bool) []int64 {
+	var out []int64
+	for t := range m {
+		out = append(out, t)
+	}
+	sort.Slice(out, func(i, j int) bool { return out[i] < out[j] })
+	return out
 }
 
 func c11Volume(r *mon.Run, key *world.Key, n int, amb *atomic.Int64) {
@@ -495,6 +571,34 @@ func c11Adversarial(r *mon.Run, key *world.Key, jr *rand.Rand, idx int) {
 		dd.NonRevocationProof = nr.Respond(c)
 		dd.NonRevocationProof.Responses["alpha"] = nr.AlphaResponse(c)
 		try("adv-foreign-witness", fmt.Sprintf("B's witness proved with its own alpha response, A's hidden index %d given a short randomiser", small), dd, c11Truth{credA, wB.U, wB.E}, false)
+	}
+	// witness proved on another hidden attribute than the revocation attribute. The verifier takes whichever hidden response is
+	// short for the revocation attribute, so a REVOKED credential needs only some hidden attribute m for which its holder knows
+	// u with u^m = nu, and gives its real revocation attribute a full-size randomiser:
+	//  (a) m = 1 (e.g. an empty-but-present string in IRMA's encoding): (u, e) = (nu, 1) fits every accumulator;
+	//  (b) attribute 0, the holder-chosen secret, set to the witness value e_B of another, unrevoked credential of the same
+	//      holder: B's witness is proved inside the revoked credential (a transplant).
+	{
+		large := func(c *world.Cred) func(p *refimpl.DProver) {
+			return func(p *refimpl.DProver) {
+				p.R[c.RevIdx] = add(pow2(pk.Params.LmCommit-1), refimpl.RandBits(pk.Params.LmCommit-1))
+			}
+		}
+		credT, errT := key.SignCredRev([]*big.Int{randBig(jr, 250), bi(int64(100 + jr.IntN(900))), bi(1)}, rev)
+		credS, errS := key.SignCredRev([]*big.Int{cp(wB.E), bi(int64(100 + jr.IntN(900))), randBig(jr, 190)}, rev)
+		if errT == nil && errS == nil {
+			_, errR := rev.Revoke(credT.C.NonRevocationWitness.E)
+			_, errR2 := rev.Revoke(credS.C.NonRevocationWitness.E)
+			cur2 := rev.Cur()
+			if errR == nil && errR2 == nil && wB.Update(pk, rev.Update(cur+1, cur2)) == nil {
+				nu := rev.Accs[cur2].Nu
+				d = refNonrevProof(credT, []int{1}, 2, cp(nu), bi(1), nu, rev.SAccs[cur2], ctx, nonce, large(credT))
+				try("adv-witness-on-other-attribute", "revoked credential, (u,e) = (nu,1) proved on a hidden attribute equal to 1", d, c11Truth{credT, cp(nu), bi(1)}, false)
+				d = refNonrevProof(credS, []int{1}, 0, wB.U, wB.E, nu, rev.SAccs[cur2], ctx, nonce, large(credS))
+				try("adv-witness-on-other-attribute", "revoked credential whose secret equals the witness value of another, unrevoked credential: that witness proved on attribute 0", d, c11Truth{credS, wB.U, wB.E}, false)
+				cur = cur2
+			}
+		}
 	}
 	// foreign issuer's witness and accumulator
 	wf, _ := frev.NewWitness()
